@@ -1004,6 +1004,13 @@ def errprop_rule(ctx, fn_pred, label, cfgs=("A", "B"), floor=10):
                                 pl = op_place(s2["rv"]["op"])
                                 if pl and pl["l"] == l0 and not pl["p"] and s2["lhs"]["l"] not in alias:
                                     alias.append(s2["lhs"]["l"])
+                            # wrapped whole into `Some(..)` (`opt.map(|r| fallible(r))` written out):
+                            # the Option carries the Result on, e.g. into `transpose()?`
+                            if "lhs" in s2 and not s2["lhs"]["p"] and s2["rv"]["k"] == "agg" and \
+                                    s2["rv"].get("variant") == "Some" and len(s2["rv"]["ops"]) == 1:
+                                pl = op_place(s2["rv"]["ops"][0])
+                                if pl and pl["l"] == l0 and not pl["p"] and s2["lhs"]["l"] not in alias:
+                                    alias.append(s2["lhs"]["l"])
                     if 0 in alias:
                         ok, how = True, "returned"
                     uses = [u for l0 in alias for u in uses_of_local(fa, l0)]
